@@ -728,6 +728,13 @@ func (node *Node) handleMessage(ctx context.Context, msg wire.Message) error {
 		return nil
 	}
 
+	if msg.Command() == wire.CmdHeaders {
+		// Headers can revert the chain for a reorg, which must not happen while a block is being
+		// checked against the top of the chain and added to it.
+		node.blockLock.Lock()
+		defer node.blockLock.Unlock()
+	}
+
 	responses, err := handler.Handle(ctx, msg)
 	if err != nil {
 		logger.Warn(ctx, "Failed to handle [%s] message : %s", msg.Command(), err)
